@@ -495,6 +495,38 @@ pub fn run() -> i32 {
         }
         ctx.absorb("randomness-drawn", st);
     }
+    // salt lengths a configuration may or may not accept (0..=24): whenever PwHash::hash returns a
+    // salt, all of it was drawn (no constant position over 64 calls, not all-zero, no repeat)
+    {
+        let mut st = Stats::new();
+        for n in 0usize..=24 {
+            let r = guarded(AssertUnwindSafe(|| {
+                let mut vals: Vec<Vec<u8>> = vec![];
+                for _ in 0..64 {
+                    let h: Result<PwHash<Vec<u8>, Vec<u8>>, _> = PwHash::hash(&b"pw".to_vec(), Config::interactive().with_opslimit(1).with_memlimit(8192).with_salt_length(n));
+                    if let Ok(h) = h {
+                        vals.push(h.into_parts().1);
+                    }
+                }
+                vals
+            }));
+            let bad = match &r {
+                Err(p) => Some(("panic", p.clone())),
+                Ok(vals) if vals.is_empty() => None,
+                Ok(vals) if vals.len() < 64 => Some(("sometimes-refuses", format!("{} of 64 calls returned a salt", vals.len()))),
+                Ok(vals) => judge(vals, false).map(|(c, d)| (c, d)),
+            };
+            st.eval(&("salt-length", n), true, match (&r, &bad) {
+                (Ok(v), None) if v.is_empty() => "salt-length-refused",
+                (_, None) => "salt-fresh",
+                _ => "salt-not-fresh",
+            });
+            if let Some((class, detail)) = bad {
+                st.fail(Fail { check: "C11.harness".into(), signature: format!("C11/{}/PwHash::hash(salt_length)", class), what: format!("PwHash::hash under a Config with salt_length {}: {}", n, detail), case: json!({"order": ["PwHash::hash(salt)"], "seam": Value::Null, "note": format!("salt_length {}; re-run bin/check C11", n)}) });
+            }
+        }
+        ctx.absorb("salt-lengths", st);
+    }
     // environment answer "short read": while this section runs, libc's getrandom() (interposed
     // below) hands out at most 64 bytes per call, as the kernel may for large or interrupted
     // requests. A caller that takes the first return value for "done" leaves a constant tail.
@@ -526,7 +558,7 @@ pub fn run() -> i32 {
             };
             st.eval(&("short-read", n), true, if bad.is_none() { "fresh-under-short-reads" } else { "unfilled-under-short-reads" });
             if let Some(b) = bad {
-                st.fail(Fail { check: "C11.rng".into(), signature: "C11/short-read/randombytes".into(), what: format!("randombytes of {} bytes while getrandom() returns at most 64 bytes per call: {}", n, b), case: json!({"order": ["rng::copy_randombytes"], "seam": Value::Null, "note": "short-read environment; re-run bin/check C11"}) });
+                st.fail(Fail { check: "C11.harness".into(), signature: "C11/short-read/randombytes".into(), what: format!("randombytes of {} bytes while getrandom() returns at most 64 bytes per call: {}", n, b), case: json!({"order": ["rng::copy_randombytes"], "seam": Value::Null, "note": "short-read environment; re-run bin/check C11"}) });
             }
         }
         GETRANDOM_CAP.store(0, std::sync::atomic::Ordering::SeqCst);
